@@ -24,12 +24,20 @@ RULE = ("random operation sequences (<=12 ops quick, <=40 thorough) over 1-3 bas
         "bad shapes, bad indices, repeats, unsliceable states); one evaluation = one operation whose complete observation "
         "agrees; distinct = (case, op) pairs; all non-trivial (at least one signal holds data)")
 ASSUMPTIONS = [
-    "boolean-mask indices and integer scalars as slice are not generated (outside the property's quantifier; no model)",
+    "boolean-mask indices are not generated (outside the property's quantifier; no model); plain integers occur inside mixed tuples",
     "integer index arrays with repeats, mixed real/complex additions, shape mismatches and slices of non-array states "
     "are generated only in the malformed stream (model behaviour = numpy behaviour, error class compared)",
     "plain attribute assignment `sig.state = v` / `sig.sensitivity = v` aliases v (Python semantics, modelled literally); "
     "the abstract-spec oracle therefore runs on the streams where assigned arrays are handed over for good",
     "values stay far below 2**53 so int64 / complex128 arithmetic is exact",
+    "slice specs cover basic slices, tuples of slices, an integer array on axis 0 and mixed tuples of slices, integers and ONE "
+    "integer array at any axis (a 0-d result — every axis indexed by an integer — is a numpy scalar in numpy and in the model; it "
+    "arises when a sensitivity has fewer axes than the state the spec was drawn for); tuples with two or more integer arrays are "
+    "not generated",
+    "dtype variety (float32 / float64 / complex64 next to int64 / complex128, Python float) is an ORACLE-LEVEL stream on plain "
+    "signals: the real code is compared with a pure-numpy accumulation spec (deepcopy at the first add, numpy's own += and its "
+    "casting errors afterwards, [...] = 0 for kept allocation) for values, dtype and error class; the Lean model itself carries "
+    "only the int64 / complex128 tag (same-kind casting between these two), so float dtypes are not compared with the model",
     "for generated cases pymoto.core_objects.get_init_str (creation-site string used only in error messages) is replaced by a "
     "constant inside the harness process for speed; the fixed corpus cases use the original",
 ]
@@ -62,6 +70,12 @@ def enc_val(x):
         return None
     if isinstance(x, bool):
         return ["other", "bool"]
+    if isinstance(x, np.generic):          # numpy scalar (every axis indexed by an integer)
+        if isinstance(x, np.int64):
+            return ["npsc", False, int(x), 0]
+        if isinstance(x, np.complex128) and x.real == int(x.real) and x.imag == int(x.imag):
+            return ["npsc", True, int(x.real), int(x.imag)]
+        return ["other", type(x).__name__]
     if isinstance(x, int):
         return ["sc", False, x, 0]
     if isinstance(x, complex):
@@ -94,7 +108,15 @@ def py_spec(sp):
         return slice(*sp["sl"])
     if k == "tuple":
         return tuple(slice(*s) for s in sp["sl"])
+    if k == "mixed":
+        return tuple(slice(*it) if isinstance(it, list) else np.array(it["a"], dtype=np.int64) if isinstance(it, dict) else int(it)
+                     for it in sp["sl"])
     return np.array(sp["sl"], dtype=np.int64)
+
+
+def is_copy_spec(sp):
+    """advanced indexing (an integer array anywhere in the index) gives a COPY"""
+    return sp["k"] == "int" or (sp["k"] == "mixed" and any(isinstance(it, dict) for it in sp["sl"]))
 
 
 # ------------------------------------------------------------------------------------------------
@@ -370,7 +392,7 @@ class Impl:
                         for what, o in (("state", t.state), ("sensitivity", t.sensitivity)):
                             if (j, what) != (root, "sensitivity") and isinstance(o, np.ndarray) and np.shares_memory(new, o):
                                 msgs.append(f"add_sensitivity: new sensitivity shares memory with signal {j}.{what}")
-        if chain and any(d["k"] == "int" for d in chain[:-1]):
+        if chain and any(is_copy_spec(d) for d in chain[:-1]):
             chain_ok = False     # a slice of an integer-array slice works on a COPY (writes are lost): outside the property
         else:
             chain_ok = True
@@ -512,10 +534,50 @@ def rand_slice(rng, d, allow_zero_step=False):
     return [bound(), bound(), rng.choice(steps)]
 
 
+def rand_int_array(rng, d, malformed):
+    k = rng.randint(0, d) if rng.random() < 0.9 else d
+    idx = rng.sample(range(d), k)
+    idx = [i - d if rng.random() < 0.3 else i for i in idx]
+    if malformed and idx:
+        m = rng.random()
+        if m < 0.3:
+            idx.append(rng.choice(idx))                       # repeat
+        elif m < 0.5:
+            idx[rng.randrange(len(idx))] = rng.choice([d, d + 1, -d - 1])    # out of range
+    return idx
+
+
+def rand_mixed(rng, shape, malformed):
+    """tuple mixing slices, integers and at most ONE integer array at any axis (result keeps at least one axis)"""
+    nd = len(shape)
+    n = rng.randint(1, nd)
+    with_arr = rng.random() < 0.8
+    apos = rng.randrange(n) if with_arr else None
+    items = []
+    nint = 0
+    for a in range(n):
+        d = shape[a]
+        if a == apos:
+            items.append({"a": rand_int_array(rng, d, malformed and rng.random() < 0.4)})
+        elif rng.random() < 0.4 and d >= 1 and (with_arr or nint + 1 < nd):
+            i = rng.randrange(d)
+            if malformed and rng.random() < 0.1:
+                i = d + rng.randint(0, 1)
+            items.append(i - d if rng.random() < 0.3 and i < d else i)
+            nint += 1
+        else:
+            items.append(rand_slice(rng, d, malformed and rng.random() < 0.05))
+    if malformed and rng.random() < 0.08:
+        items = items + [rand_slice(rng, 2)] * (nd + 1 - n)        # too many indices
+    return {"k": "mixed", "sl": items}
+
+
 def rand_spec(rng, shape, malformed=False):
     """a slice spec for an array of the given shape"""
     r = rng.random()
     d0 = shape[0]
+    if len(shape) >= 2 and rng.random() < 0.45 or rng.random() < 0.05:
+        return rand_mixed(rng, shape, malformed)
     if r < 0.35:
         return {"k": "basic", "sl": rand_slice(rng, d0, malformed and rng.random() < 0.15)}
     if r < 0.65:
@@ -579,11 +641,11 @@ def gen_case(ctx, stream, maxops):
         mine = []
         for _ in range(rng.randint(2, 4)):
             cands = [j for j in mine if slice_shape[j] and len(slice_shape[j]) >= 1 and slice_shape[j][0] >= 1
-                     and (decls[j]["k"] != "int" or malformed)]
+                     and (not is_copy_spec(decls[j]) or malformed)]
             if cands and rng.random() < 0.35:
                 pj = rng.choice(cands)
                 sp = rand_spec(rng, slice_shape[pj], malformed)
-                if decls[pj]["k"] == "int" and not malformed:
+                if is_copy_spec(decls[pj]) and not malformed:
                     continue
                 if owned and sp["k"] == "int" and len({x % slice_shape[pj][0] for x in sp["sl"]}) != len(sp["sl"]):
                     continue
@@ -752,6 +814,25 @@ def fixed_cases():
                   {"op": "add", "sig": {"b": 1}, "a": {"ext": 0}}, {"op": "reset", "sig": {"b": 1}, "ka": True},
                   {"op": "set_sens", "sig": {"b": 1}, "a": {"ext": 0}}, {"op": "add", "sig": {"b": 1}, "a": {"ext": 0}},
                   {"op": "set_sens", "sig": {"b": 1}, "a": {"sc": [True, 1, 1]}}, {"op": "reset", "sig": {"b": 1}, "ka": True}]}))
+    # mixed tuples: slice before an integer array (numpy's copy has a non-None `.base`), integer + array, array + slice,
+    # non-adjacent advanced indices on a 3-D base (array dimension moves to the front)
+    cases.append(("owned", {"slices": [{"p": b0, "k": "mixed", "sl": [[None, None, None], {"a": [2, 0]}]},
+                                      {"p": b0, "k": "mixed", "sl": [1, {"a": [1]}]},
+                                      {"p": b0, "k": "mixed", "sl": [{"a": [-1]}, [1, 3, None]]},
+                                      {"p": {"b": 1}, "k": "mixed", "sl": [0, [None, None, None], {"a": [3, 1]}]},
+                                      {"p": {"b": 1}, "k": "mixed", "sl": [[None, None, None], [1, 3, None], {"a": [0]}]},
+                                      {"p": {"b": 1}, "k": "mixed", "sl": [1, [None, None, -1]]}],
+                  "ops": [{"op": "new_signal", "st": _new([2, 3], [1, 2, 3, 4, 5, 6]), "se": None},
+                          {"op": "new_signal", "st": _new([2, 3, 4], list(range(24))), "se": None},
+                          {"op": "add", "sig": s(0), "a": _new([2, 2], [10, 20, 30, 40])},
+                          {"op": "add", "sig": s(1), "a": {"sc": [False, 5, 0]}},
+                          {"op": "add", "sig": s(2), "a": _new([1, 2], [7, 8])},
+                          {"op": "set_state", "sig": s(0), "a": {"sc": [False, -1, 0]}},
+                          {"op": "add", "sig": s(3), "a": _new([2, 3], [1, 2, 3, 4, 5, 6])},
+                          {"op": "add", "sig": s(4), "a": _new([2, 2, 1], [1, 2, 3, 4])},
+                          {"op": "add", "sig": s(5), "a": _new([3, 4], list(range(12)))},
+                          {"op": "set_sens", "sig": s(3), "a": _new([2, 3], [9, 9, 9, 8, 8, 8])},
+                          {"op": "reset", "sig": s(0), "ka": None}, {"op": "reset", "sig": s(4), "ka": None}]}))
     return [(st, {"m": "c18.run", **c}) for st, c in cases]
 
 
@@ -802,6 +883,9 @@ def sel_cases(ctx):
         shape = [rng.randint(0, 4) for _ in range(rng.choice([2, 2, 3]))]
         sp = rand_spec(rng, [max(1, d) for d in shape], rng.random() < 0.2)
         out.append({"m": "c18.sel", "shape": shape, **sp})
+    for _ in range(200 if ctx.quick else 3000):            # mixed tuples: where does the array dimension land, C-order of positions
+        shape = [rng.randint(1, 4) for _ in range(rng.choice([1, 2, 2, 3, 3]))]
+        out.append({"m": "c18.sel", "shape": shape, **rand_mixed(rng, shape, rng.random() < 0.15)})
     return out
 
 
@@ -906,6 +990,148 @@ def object_alias_cases(ctx, n):
             ctx.distinct.add(("object-alias", kind, str(ops)))
 
 
+# ----------------------------------------------------------------------------------------------------------------
+# dtype histories on plain signals (oracle-level stream: the Lean model carries int64 / complex128 only)
+# ----------------------------------------------------------------------------------------------------------------
+DTYPES = [np.int64, np.float32, np.float64, np.complex64, np.complex128]
+
+
+def _dt_enc(v):
+    """(kind, dtype, shape, values) with exact values"""
+    if v is None:
+        return None
+    if isinstance(v, np.ndarray):
+        return ["arr", str(v.dtype), list(v.shape), [float(complex(x).real) for x in v.reshape(-1)],
+                [float(complex(x).imag) for x in v.reshape(-1)]]
+    return ["sc", type(v).__name__, float(complex(v).real), float(complex(v).imag)]
+
+
+def _dt_dec(e):
+    if e is None:
+        return None
+    if e[0] == "arr":
+        a = np.array(e[3]) + 1j * np.array(e[4])
+        dt = np.dtype(e[1])
+        return (a if dt.kind == "c" else a.real).astype(dt).reshape(e[2]).copy()
+    x = complex(e[2], e[3])
+    return {"int": lambda: int(x.real), "float": lambda: float(x.real), "complex": lambda: x}[e[1]]()
+
+
+def _dt_value(rng, shape):
+    """a value (encoded) whose entries are multiples of 1/4 (exact in every float type; integers for int64)"""
+    r = rng.random()
+    if r < 0.15:
+        k = rng.random()
+        if k < 0.34:
+            return ["sc", "int", float(rng.randint(-5, 5)), 0.0]
+        if k < 0.67:
+            return ["sc", "float", rng.randint(-20, 20) / 4, 0.0]
+        return ["sc", "complex", rng.randint(-20, 20) / 4, rng.randint(-20, 20) / 4]
+    dt = rng.choice(DTYPES)
+    n = int(np.prod(shape))
+    if dt is np.int64:
+        return ["arr", "int64", list(shape), [float(rng.randint(-9, 9)) for _ in range(n)], [0.0] * n]
+    cplx = dt in (np.complex64, np.complex128)
+    return ["arr", str(np.dtype(dt)), list(shape), [rng.randint(-40, 40) / 4 for _ in range(n)],
+            [rng.randint(-40, 40) / 4 if cplx else 0.0 for _ in range(n)]]
+
+
+def run_dtype_log(log):
+    """execute a plain-signal history on real Signals next to the pure-numpy accumulation spec
+    (`acc = deepcopy(ds)` at the first add after None, numpy's own `+=` afterwards incl. its casting errors,
+    `acc[...] = 0` for kept allocation); returns a description of the first difference or None"""
+    import copy as _copy
+    pm = _pm()
+    sigs, acc, keep = [], [], []
+    for k, ent in enumerate(log):
+        gerr = werr = None
+        with warnings.catch_warnings():
+            warnings.simplefilter("ignore")
+            if ent[0] == "new":
+                se = _dt_dec(ent[2])
+                sigs.append(pm.Signal(f"d{len(sigs)}", state=_dt_dec(ent[1]), sensitivity=se))
+                acc.append(_copy.deepcopy(se))
+                keep.append(se is not None)
+            elif ent[0] == "add":
+                i, v = ent[1], _dt_dec(ent[2])
+                vcopy = _copy.deepcopy(v)
+                try:
+                    sigs[i].add_sensitivity(v)
+                except Exception as e:  # noqa
+                    gerr = errname(e)
+                try:                              # the specification, on its own objects
+                    if acc[i] is None:
+                        acc[i] = _copy.deepcopy(vcopy)
+                    else:
+                        a = acc[i]
+                        a += vcopy
+                        acc[i] = a
+                except Exception as e:  # noqa
+                    werr = errname(e)
+                if isinstance(v, np.ndarray):
+                    if _dt_enc(v) != _dt_enc(vcopy):
+                        return f"step {k}: add_sensitivity changed its argument to {_dt_enc(v)}"
+                    v += 1                        # the caller changes its array afterwards
+            elif ent[0] == "reset":
+                i, ka = ent[1], ent[2]
+                try:
+                    sigs[i].reset() if ka is None else sigs[i].reset(ka)
+                except Exception as e:  # noqa
+                    gerr = errname(e)
+                if acc[i] is not None:
+                    if keep[i] if ka is None else ka:
+                        if isinstance(acc[i], np.ndarray):
+                            acc[i][...] = 0
+                        else:
+                            acc[i] = acc[i] * 0
+                    else:
+                        acc[i] = None
+            elif ent[0] == "set_state":
+                sigs[ent[1]].state = _dt_dec(ent[2])
+        got = [_dt_enc(sg.sensitivity) for sg in sigs]
+        want = [_dt_enc(a) for a in acc]
+        if got != want or gerr != werr:
+            return (f"plain-signal history, step {k} {ent[0]}: sensitivities are {got} (error {gerr}) but plain numpy "
+                    f"accumulation gives {want} (error {werr})")
+    return None
+
+
+def gen_dtype_log(ctx):
+    rng = ctx.rng
+    nsig = rng.randint(1, 2)
+    shape = rand_shape(rng, False)
+    log = [["new", _dt_value(rng, shape), _dt_value(rng, shape) if rng.random() < 0.2 else None] for _ in range(nsig)]
+    for _ in range(rng.randint(3, 10 if ctx.quick else 16)):
+        i = rng.randrange(nsig)
+        r = rng.random()
+        if r < 0.62:
+            log.append(["add", i, _dt_value(rng, shape if rng.random() < 0.93 else rand_shape(rng, False))])
+        elif r < 0.92:
+            log.append(["reset", i, rng.choice([None, None, True, False])])
+        else:
+            log.append(["set_state", i, _dt_value(rng, shape)])
+    return log
+
+
+def dtype_history_cases(ctx, n):
+    """oracle-level stream: dtype variety on plain signals (the Lean model carries int64 / complex128 only)"""
+    for t in range(n):
+        log = gen_dtype_log(ctx)
+        why = run_dtype_log(log)
+        ctx.evaluations += 1
+        ctx.mode("E")
+        ctx.branch("dtype-history")
+        if why:
+            for m in range(1, len(log) + 1):                  # shortest failing prefix
+                w2 = run_dtype_log(log[:m])
+                if w2:
+                    why, log = w2, log[:m]
+                    break
+            ctx.oracle_fail(why, {"stream": "dtype", "log": log})
+        else:
+            ctx.distinct.add(("dtype", json.dumps(log)))
+
+
 def correspondence(ctx):
     # ---- index sets --------------------------------------------------------------------------------
     cases = sel_cases(ctx)
@@ -937,9 +1163,17 @@ def correspondence(ctx):
             tgt = "" if "sig" not in op else (".plain" if "b" in op["sig"] else "." + req["slices"][op["sig"]["s"]]["k"]
                                               + (".nested" if "s" in req["slices"][op["sig"]["s"]]["p"] else ""))
             ctx.branch("op." + op["op"] + tgt + (".err:" + o["err"] if o["err"] else ""))
-        for mmsg in msgs[:3]:
-            ctx.oracle_fail(mmsg, {"stream": stream, "request": req})
+        if msgs:
+            wreq, wmsg = req, msgs[0]
+            for m in range(1, len(req["ops"])):               # shortest failing prefix
+                _, pm_, _ = run_case({**req, "ops": req["ops"][:m]}, stream == "owned")
+                if pm_:
+                    wreq, wmsg = {**req, "ops": req["ops"][:m]}, pm_[0]
+                    break
+            ctx.oracle_fail(wmsg, {"stream": stream, "request": wreq})
     object_alias_cases(ctx, 60 if ctx.quick else 1500)
+    with fast_init_loc():
+        dtype_history_cases(ctx, 150 if ctx.quick else 3000)
     ctx.notes.append(f"oracle: {tot}")
     if batch:
         ctx.sample({"request": batch[1][1], "last_observation": batch[1][2][-1]})
@@ -972,6 +1206,9 @@ def search(ctx, disagreements):
 def replay(ctx, data):
     w = data.get("witness", {})
     w = w.get("witness", w)
+    if w.get("stream") == "dtype" and w.get("log"):
+        why = run_dtype_log(w["log"])
+        return {"still_failing": bool(why), "what": why}
     req = w.get("request")
     if not req:
         return {"still_failing": False, "note": "replay file names no failing input (see no_longer_checks)"}
